@@ -39,7 +39,7 @@ def run_cli_proc(argv, variant='plain', timeout=120, tool='peltool'):
     plain: python <repo>/modules/pel/peltool/peltool.py, UTF-8 locale, stdout a pipe
     posix: LANG=C LC_ALL=C without Python's locale coercion / UTF-8 mode (stdout is ASCII)
     opt: python -O        module: python -m pel.peltool.peltool from an empty directory
-    elsewhere: current directory /        relative: started in the directory that holds the first path argument,
+    elsewhere: another current directory (with a blank in its path)        relative: started in the directory that holds the first path argument,
     that argument (and others below it) given as relative paths
     tofile: stdout and stderr are regular files      nohome: HOME and TMPDIR name nothing, no LANG at all
     tty_less: stdin closed"""
@@ -63,7 +63,9 @@ def run_cli_proc(argv, variant='plain', timeout=120, tool='peltool'):
     elif variant == 'module':
         cmd = [sys.executable, '-m', module]
     elif variant == 'elsewhere':
-        cwd = '/'
+        # (not / itself: the tool under test may be a changed copy that removes or writes files where it stands)
+        cwd = os.path.join(scratch_dir('proc'), 'else where', 'deep')
+        os.makedirs(cwd, exist_ok=True)
     elif variant == 'relative':
         paths = [a for a in argv if os.path.isabs(a) and os.path.exists(a)]
         if paths:
